@@ -401,7 +401,15 @@ class Interp:
         elif isinstance(tgt, ast.Subscript):
             base = self.ev(tgt.value, env, mod, cls)
             if isinstance(tgt.slice, ast.Slice):
-                self.fail(tgt, 'slice store')
+                if not isinstance(base, list) or tgt.slice.step is not None:
+                    self.fail(tgt, 'slice store on %r' % (base,))
+                lo = self.ev(tgt.slice.lower, env, mod, cls) if tgt.slice.lower is not None else None
+                hi = self.ev(tgt.slice.upper, env, mod, cls) if tgt.slice.upper is not None else None
+                try:
+                    base[lo:hi] = list(self.iterate(v, tgt))
+                except TypeError:
+                    raise PyExc('TypeError in ' + ast.unparse(tgt))
+                return
             k = self.ev(tgt.slice, env, mod, cls)
             si = self.dunder(base, '__setitem__')
             if si is not None:
